@@ -40,9 +40,9 @@ Qed.
 Lemma process_not_fuel : forall a b gl n m c, process_grade_list a b gl n m c <> Fuel.
 Proof. intros a b gl n m c H. unfold process_grade_list in H. destruct n; discriminate. Qed.
 
-Lemma leaf_response_not_fuel : forall k c m o l, leaf_response k c m o l <> Fuel.
+Lemma leaf_response_not_fuel : forall rc k c m o l, leaf_response rc k c m o l <> Fuel.
 Proof.
-  intros k c m o l H. destruct l as [r|s|v|e em| |]; simpl in H; try discriminate;
+  intros rc k c m o l H. destruct l as [r|s|v|e em| |]; simpl in H; try discriminate;
     destruct k as [| |f|f mc]; try discriminate.
   unfold matrix_err in H. destruct (m_suppress mc); [discriminate|].
   destruct e; [destruct (m_shape_errors mc) | destruct (m_is_raised mc) |]; discriminate.
@@ -156,7 +156,7 @@ Section Fuel.
       + destruct a as [alts|]; [|discriminate]. destruct alts; [discriminate|].
         apply bind_fuel in H. destruct H as [H | [rs [_ H]]].
         * apply collect_fuel in H. destruct H as [o [Hin Ho]]. apply in_mapi in Hin. destruct Hin as [i [ea [_ ->]]].
-          exact (leaf_response_not_fuel _ _ _ _ _ Ho).
+          exact (leaf_response_not_fuel _ _ _ _ _ _ Ho).
         * apply bind_fuel in H. destruct H as [H | [r [_ H]]]; [exact (item_select_not_fuel _ _ H) | discriminate].
       + assert (Hn : no_fuel (check OR f) sub) by (apply IH; lia).
         destruct a as [alts|]; [|discriminate]. destruct alts; [discriminate|].
